@@ -103,12 +103,12 @@ func disabled(mask int) (map[string]bool, gostatsd.TimerSubtypes) {
 
 // flushed builds the aggregate the real aggregator hands to backends for the given series.
 func flushed(ms mapSpec) *gostatsd.MetricMap {
-	_, sub := disabled(ms.Mask)
+	dkeys, _ := disabled(ms.Mask)
 	var pcts []float64
 	if ms.Pct {
 		pcts = []float64{90, -50}
 	}
-	ag := statsd.VerifWiredAggregator(statsd.Server{PercentThreshold: pcts, ExpiryIntervalCounter: 0, ExpiryIntervalGauge: 0, ExpiryIntervalSet: 0, ExpiryIntervalTimer: 0, DisabledSubTypes: sub, HistogramLimit: map[bool]uint32{false: math.MaxUint32, true: 0}[ms.Limit0]})
+	ag := statsd.VerifWiredAggregator(*verifServer([]string{verifPctArg(pcts), "--expiry-interval=0s", fmt.Sprintf("--timer-histogram-limit=%d", map[bool]uint32{false: math.MaxUint32, true: 0}[ms.Limit0])}, dkeys))
 	mm := gostatsd.NewMetricMap(false)
 	for _, i := range ms.Series {
 		s := menu[i]
